@@ -23,7 +23,7 @@ import HcipyVerif.Model.Coronagraph
 * `papply [E]` → `ok [perfectMat T T⁺ c E] pin=powerW pout=powerW`
 * `pmatrix` → `ok row;row;…` the matrix `perfectMatrix T T⁺ c` (`get_transformation_matrix_forward()`)
 * `vvrun [history wl] [table wl] [table ch] [table sh] C2 S2 PLUS` → one chromatic vortex object driven through a history of
-  wavelengths (`chromRun`, parameter = table lookup `wl ↦ (cos δ/2, sin δ/2)`): `ok [leak per step] [leak per step, shared-instance variant]
+  wavelengths (`chromRun`, parameter = table lookup `wl ↦ (cos δ/2, sin δ/2)`): `ok [vortexTerm entries] [Re V e] [Im V e] [leak per step] [leak per step, shared-instance variant]
   [Re J per step, 4 entries each] [Im J …] [co re] [co im] [cross re] [cross im]` (`vvLeak`, `retarderJones`, `coPolar`, `crossPolar`)
 -/
 namespace HcipyVerif.Driver.C09
@@ -92,7 +92,9 @@ def vvRunOp (hist twl tch tsh : List Rat) (c2 s2 : Rat) (plus : Bool) : String :
   let ents := js.flatMap fun J => [J.j11, J.j12, J.j21, J.j22]
   let co := used.map fun p => coPolar CRat.conj i (rc p.1) (rc p.2) (rc c2) (rc s2) plus
   let cr := used.map fun p => crossPolar CRat.conj i (rc p.1) (rc p.2) (rc c2) (rc s2) plus
-  s!"ok {showRatList (used.map leak)} {showRatList (shared.map leak)} {showRatList (ents.map (·.re))} {showRatList (ents.map (·.im))} {showRatList (co.map (·.re))} {showRatList (co.map (·.im))} {showRatList (cr.map (·.re))} {showRatList (cr.map (·.im))}"
+  let V := vortexTerm (rc c2) (rc s2)
+  let ve := V.apply (circ i plus)
+  s!"ok {showRatList [V.j11.re, V.j12.re, V.j21.re, V.j22.re]} {showRatList [ve.1.re, ve.2.re]} {showRatList [ve.1.im, ve.2.im]} {showRatList (used.map leak)} {showRatList (shared.map leak)} {showRatList (ents.map (·.re))} {showRatList (ents.map (·.im))} {showRatList (co.map (·.re))} {showRatList (co.map (·.im))} {showRatList (cr.map (·.re))} {showRatList (cr.map (·.im))}"
 
 def lyotOp (occ back : Bool) (fre fim bre bim mre mim sre sim ere eim : String) : String :=
   match parseRatLists? fre, parseRatLists? fim, parseRatLists? bre, parseRatLists? bim,
